@@ -41,17 +41,74 @@ pub fn base_from(a: &mut Args, tag: &str) -> Base<'static> {
 }
 
 pub fn param_from(a: &mut Args) -> Param<'static, 'static> {
+    param_from_flavour(a, Flavour::Owned)
+}
+
+/// which variants of params::{Base, Container} a tree is built from: the owned ones, the borrowing ones (ArrayRef,
+/// StructRef, DictRef, StringRef, ObjectPathRef, SignatureRef; the borrowed data is leaked), or alternating by depth
+#[derive(Clone, Copy, PartialEq)]
+pub enum Flavour {
+    Owned,
+    Ref,
+    /// alternating: owned at this level, borrowing one level down, ...
+    MixedOwned,
+    MixedRef,
+}
+impl Flavour {
+    /// MP/RP owned, MPR/RPR borrowing, MPX/RPX alternating
+    pub fn of_op(op: &str) -> Flavour {
+        match op.as_bytes().get(2) {
+            Some(b'R') => Flavour::Ref,
+            Some(b'X') => Flavour::MixedOwned,
+            _ => Flavour::Owned,
+        }
+    }
+    fn here_ref(self) -> bool {
+        matches!(self, Flavour::Ref | Flavour::MixedRef)
+    }
+    fn child(self) -> Flavour {
+        match self {
+            Flavour::MixedOwned => Flavour::MixedRef,
+            Flavour::MixedRef => Flavour::MixedOwned,
+            f => f,
+        }
+    }
+}
+
+fn base_ref(b: Base<'static>) -> Base<'static> {
+    fn leak(s: String) -> &'static str {
+        Box::leak(s.into_boxed_str())
+    }
+    match b {
+        Base::String(s) => Base::StringRef(leak(s)),
+        Base::ObjectPath(s) => Base::ObjectPathRef(leak(s)),
+        Base::Signature(s) => Base::SignatureRef(leak(s)),
+        other => other,
+    }
+}
+
+pub fn param_from_flavour(a: &mut Args, fl: Flavour) -> Param<'static, 'static> {
     let tag = a.next();
+    let child = fl.child();
     match tag {
         "a" => {
             let esig = parse_one_type(a.next());
             let n = a.num();
-            let values = (0..n).map(|_| param_from(a)).collect();
-            Param::Container(Container::Array(rustbus::params::Array { element_sig: esig, values }))
+            let values: Vec<Param<'static, 'static>> = (0..n).map(|_| param_from_flavour(a, child)).collect();
+            if fl.here_ref() {
+                Param::Container(Container::ArrayRef(rustbus::params::ArrayRef { element_sig: esig, values: Box::leak(values.into_boxed_slice()) }))
+            } else {
+                Param::Container(Container::Array(rustbus::params::Array { element_sig: esig, values }))
+            }
         }
         "r" => {
             let n = a.num();
-            Param::Container(Container::Struct((0..n).map(|_| param_from(a)).collect()))
+            let fields: Vec<Param<'static, 'static>> = (0..n).map(|_| param_from_flavour(a, child)).collect();
+            if fl.here_ref() {
+                Param::Container(Container::StructRef(Box::leak(fields.into_boxed_slice())))
+            } else {
+                Param::Container(Container::Struct(fields))
+            }
         }
         "e" => {
             let k = match parse_one_type(a.next()) {
@@ -64,17 +121,25 @@ pub fn param_from(a: &mut Args) -> Param<'static, 'static> {
             for _ in 0..n {
                 let kt = a.next();
                 let key = base_from(a, kt);
-                let val = param_from(a);
+                let key = if fl.here_ref() { base_ref(key) } else { key };
+                let val = param_from_flavour(a, child);
                 map.insert(key, val);
             }
-            Param::Container(Container::Dict(rustbus::params::Dict { key_sig: k, value_sig: vs, map }))
+            if fl.here_ref() {
+                Param::Container(Container::DictRef(rustbus::params::DictRef { key_sig: k, value_sig: vs, map: Box::leak(Box::new(map)) }))
+            } else {
+                Param::Container(Container::Dict(rustbus::params::Dict { key_sig: k, value_sig: vs, map }))
+            }
         }
         "v" => {
             let sig = parse_one_type(a.next());
-            let value = param_from(a);
+            let value = param_from_flavour(a, child);
             Param::Container(Container::Variant(Box::new(rustbus::params::Variant { sig, value })))
         }
-        t => Param::Base(base_from(a, t)),
+        t => {
+            let b = base_from(a, t);
+            Param::Base(if fl.here_ref() { base_ref(b) } else { b })
+        }
     }
 }
 
@@ -89,28 +154,41 @@ pub fn param_tok(p: &Param, out: &mut Vec<String>, sorted: bool) {
     match p {
         Param::Base(b) => base_tok(b, out),
         Param::Container(c) => match c {
-            Container::Array(arr) => {
-                out.push("a".into());
-                out.push(sig_str(&arr.element_sig));
-                out.push(arr.values.len().to_string());
-                for v in &arr.values {
-                    param_tok(v, out, sorted);
-                }
+            Container::Array(rustbus::params::Array { element_sig, values }) => array_tok(element_sig, values, out, sorted),
+            Container::ArrayRef(rustbus::params::ArrayRef { element_sig, values }) => array_tok(element_sig, values, out, sorted),
+            Container::Struct(fields) => struct_tok(fields, out, sorted),
+            Container::StructRef(fields) => struct_tok(fields, out, sorted),
+            Container::Dict(rustbus::params::Dict { key_sig, value_sig, map }) => dict_tok(*key_sig, value_sig, map, out, sorted),
+            Container::DictRef(rustbus::params::DictRef { key_sig, value_sig, map }) => dict_tok(*key_sig, value_sig, map, out, sorted),
+            Container::Variant(v) => {
+                out.push("v".into());
+                out.push(sig_str(&v.sig));
+                param_tok(&v.value, out, sorted);
             }
-            Container::Struct(fields) => {
-                out.push("r".into());
-                out.push(fields.len().to_string());
-                for v in fields {
-                    param_tok(v, out, sorted);
-                }
-            }
-            Container::Dict(d) => {
-                out.push("e".into());
-                out.push(sig_str(&signature::Type::Base(d.key_sig)));
-                out.push(sig_str(&d.value_sig));
-                out.push(d.map.len().to_string());
-                let mut entries: Vec<Vec<String>> = d
-                    .map
+        },
+    }
+}
+fn array_tok(element_sig: &signature::Type, values: &[Param], out: &mut Vec<String>, sorted: bool) {
+    out.push("a".into());
+    out.push(sig_str(element_sig));
+    out.push(values.len().to_string());
+    for v in values {
+        param_tok(v, out, sorted);
+    }
+}
+fn struct_tok(fields: &[Param], out: &mut Vec<String>, sorted: bool) {
+    out.push("r".into());
+    out.push(fields.len().to_string());
+    for v in fields {
+        param_tok(v, out, sorted);
+    }
+}
+fn dict_tok(key_sig: signature::Base, value_sig: &signature::Type, map: &rustbus::params::DictMap, out: &mut Vec<String>, sorted: bool) {
+    out.push("e".into());
+    out.push(sig_str(&signature::Type::Base(key_sig)));
+    out.push(sig_str(value_sig));
+    out.push(map.len().to_string());
+    let mut entries: Vec<Vec<String>> = map
                     .iter()
                     .map(|(k, v)| {
                         let mut e = Vec::new();
@@ -119,20 +197,11 @@ pub fn param_tok(p: &Param, out: &mut Vec<String>, sorted: bool) {
                         e
                     })
                     .collect();
-                if sorted {
-                    entries.sort();
-                }
-                for e in entries {
-                    out.extend(e);
-                }
-            }
-            Container::Variant(v) => {
-                out.push("v".into());
-                out.push(sig_str(&v.sig));
-                param_tok(&v.value, out, sorted);
-            }
-            _ => out.push("REF".into()),
-        },
+    if sorted {
+        entries.sort();
+    }
+    for e in entries {
+        out.extend(e);
     }
 }
 pub fn base_tok(b: &Base, out: &mut Vec<String>) {
